@@ -86,6 +86,21 @@ def run(R):
                 st2, parent = mon.call(lambda: B.Builder().store_bits('1011').store_ref(c).store_ref(subs[0][0]).end_cell()) if parent_r is not None else ('skip', None)
                 if st2 == 'ok':
                     emit_and_check(R, name + '/new-parent-of-serialised-cells', parent_r, parent, dict(W, sequence='children first, then a new parent'))
+        # the same DAG reached through two classes of cell objects: a subclass of Cell (the parser builds `cls` objects) and plain cells under one new parent
+        if 1 < ncells <= 200 and r.type == rc.ORD:
+            class _SubCell(B.Cell):
+                pass
+            st, sub = mon.call(lambda: _SubCell.one_from_boc(c.to_boc()))
+            if st == 'ok':
+                try:
+                    mixed_r = rc.RC('0110', (r, r, rc.RC('1', (r,))))
+                except rc.RefError:
+                    mixed_r = None
+                if mixed_r is not None:
+                    st2, mixed = mon.call(lambda: B.Builder().store_bits('0110').store_ref(sub).store_ref(c).store_ref(B.Builder().store_bits('1').store_ref(sub.copy()).end_cell()).end_cell())
+                    if st2 == 'ok':
+                        emit_and_check(R, name + '/cells-of-two-classes', mixed_r, mixed, dict(W, objects='the same sub-DAG as Cell-subclass objects and as plain Cell objects'))
+                        R.count('mixed_class_emissions')
         # objects derived from the cell are used (a builder made from it gets more references and bits, a slice of it is read), then the cell is emitted again
         if ncells <= 400 and r.type == rc.ORD:
             def use_derived():
@@ -131,6 +146,7 @@ def run(R):
     R.floor('off_bytes', 3, 'set')
     R.floor('multi_bag_emissions', 20)
     R.floor('fresh_object_emissions', 20)
+    R.floor('mixed_class_emissions', 10)
     R.floor('emissions_after_derived_use', 20)
 
 
